@@ -26,6 +26,10 @@ type specCtx struct {
 	blk     *ssa.BasicBlock
 	idx     int
 	bound   map[string]Term
+	capt    map[string]tv // addresses of captured variables (closure contracts)
+	phiNext map[ssa.Value]Term // at a latch: the value each header phi takes on this back edge
+	inIter  bool
+	iterHdr *ssa.BasicBlock
 	local   bool // resolve names through the SSA of fr.fn
 	pkg     *types.Package
 }
@@ -316,6 +320,15 @@ func (c *specCtx) ident0(name string) (tv, error) {
 			}
 		}
 	}
+	if a, ok := c.capt[name]; ok {
+		// captured variable of a closure: its value in the state being talked about
+		et := deref(a.ty)
+		if isStruct(et) {
+			return tv{fr.loadStruct(a.Term, et, c.st), et}, nil
+		}
+		key := fr.vc().keyCell(et)
+		return tv{Term{fmt.Sprintf("(select %s %s)", fr.vc().cur(c.st, key), a.S), sortOf(et)}, et}, nil
+	}
 	if c.params != nil {
 		if t, ok := c.params[name]; ok {
 			return tv{t, c.ptypes[name]}, nil
@@ -353,10 +366,35 @@ func (c *specCtx) localName(name string) (tv, bool) {
 			lv := fr.addrOf(v)
 			return tv{fr.load(lv, c.st), deref(v.Type())}, true
 		}
-		if fv, ok := v.(*ssa.FreeVar); ok {
-			_ = fv
+		if !c.inIter && c.phiNext != nil {
+			if t, ok := c.phiNext[v]; ok {
+				return tv{t, v.Type()}, true
+			}
 		}
 		return tv{fr.val(v), v.Type()}, true
+	}
+	if c.inIter && c.iterHdr != nil {
+		// inside iter(): loop-carried variables have their value at the loop head
+		for _, ins := range c.iterHdr.Instrs {
+			phi, ok := ins.(*ssa.Phi)
+			if !ok {
+				break
+			}
+			if phi.Comment == name {
+				return tv{fr.val(phi), phi.Type()}, true
+			}
+		}
+	}
+	// address-taken variables (captured by closures, &x): their value lives in a cell
+	for _, b := range fn.Blocks {
+		for _, ins := range b.Instrs {
+			if a, ok := ins.(*ssa.Alloc); ok && a.Comment == name && !a.Heap == false {
+				if _, defined := fr.vals[a]; defined {
+					lv := fr.addrOf(a)
+					return tv{fr.load(lv, c.st), deref(a.Type())}, true
+				}
+			}
+		}
 	}
 	if c.blk != nil {
 		b := c.blk
@@ -602,7 +640,9 @@ func (c *specCtx) callExpr(x *ast.CallExpr) (tv, error) {
 		if c.iter == nil {
 			return tv{}, fmt.Errorf("iter() not available here")
 		}
-		return c.withState(c.iter).tr(args[0])
+		n := c.withState(c.iter)
+		n.inIter = true
+		return n.tr(args[0])
 	case "iter1", "iter2", "iter3", "iter4", "iter5":
 		n := int(name[4] - '0')
 		for _, li := range fr.loops {
@@ -759,6 +799,26 @@ func (c *specCtx) callExpr(x *ast.CallExpr) (tv, error) {
 			return tv{}, err
 		}
 		return tv{Term{fmt.Sprintf("(ipay_V %s)", a.S), SV}, types.NewSlice(types.Typ[types.Uint8])}, nil
+	case "addr":
+		// addr(x.f): address of field f of the object x points to
+		sel, ok := args[0].(*ast.SelectorExpr)
+		if !ok {
+			return tv{}, fmt.Errorf("addr() needs a field selector")
+		}
+		base, err := c.tr(sel.X)
+		if err != nil {
+			return tv{}, err
+		}
+		if base.ty == nil {
+			return tv{}, fmt.Errorf("addr(): untyped base")
+		}
+		t := deref(base.ty)
+		p := findFieldPath(t, sel.Sel.Name, 0)
+		if len(p) != 1 {
+			return tv{}, fmt.Errorf("addr(): no direct field %s", sel.Sel.Name)
+		}
+		f := t.Underlying().(*types.Struct).Field(p[0])
+		return tv{Term{fmt.Sprintf("(%s %s)", fr.enc.faFun(t, f.Name()), base.S), SInt}, types.NewPointer(f.Type())}, nil
 	case "isfresh":
 		// the object was allocated after the reference state (old): call entry / function entry
 		a, err := c.tr(args[0])
@@ -831,6 +891,9 @@ func (c *specCtx) callExpr(x *ast.CallExpr) (tv, error) {
 		}
 		if k.Sort != *g.Key {
 			return tv{}, fmt.Errorf("ghost %s: key sort %s, want %s", name, k.Sort, *g.Key)
+		}
+		if name == "chsent" && k.ty != nil {
+			key = vc.keyGhostChan(g, k.ty)
 		}
 		return tv{Term{fmt.Sprintf("(select %s %s)", vc.cur(c.st, key), k.S), g.Val}, nil}, nil
 	}
